@@ -157,6 +157,8 @@ pub mod rust_log_ref_finder
             {
                 Rule::log_macro =>
                 {
+                    // Both directives apply to the line on which the statement starts.
+                    let statement_start = found.as_span().start();
                     let mut inner_rules = found.into_inner();
 
                     // Macro name
@@ -285,7 +287,7 @@ pub mod rust_log_ref_finder
                     if config.rust.structured
                         && !check_for_no_kvp_directive(
                             code,
-                            rule_ref_container_span.start(),
+                            statement_start,
                             &RUST_COMMENT_PATTERN,
                         )
                     {
